@@ -33,3 +33,20 @@ Definition plain_inputs (view : list node) (reqs : list bytes) : bool :=
 (* the entries a request needs in the copy: every symlink traversed, and the entry reached *)
 Definition needed (o : cres) (x : list bytes) : Prop :=
   In x (traversed o) \/ (final o = Reached x /\ x <> []).
+
+(* ---- requests whose last component is a bare star ---- *)
+Definition s_star : bytes := [star].
+(* plain, and safe as the literal part of an L/star pattern (what C10 assumes of the library) *)
+Definition psafe_comp (c : bytes) : bool := plain_comp c && regex_safe c.
+(* every component plain and safe; the last one may instead be a bare star *)
+Fixpoint star_last_c (cs : list bytes) : bool :=
+  match cs with
+  | [] => true
+  | c :: r => match r with
+              | [] => psafe_comp c || bytes_eqb c s_star
+              | _ => psafe_comp c && star_last_c r
+              end
+  end.
+Definition star_inputs (view : list node) (reqs : list bytes) : bool :=
+  forallb (fun r => star_last_c (norm_clamp (comps r))) reqs &&
+  forallb (fun l => forallb psafe_comp (comps l)) (forest_links view).
